@@ -781,7 +781,7 @@ BPROJ = {
 
 
 def gen_broker_suite(prop, tier, rng):
-    n = {"quick": 140, "thorough": 3000}[tier]
+    n = tier_size(tier, 140, 3000)
     scs = []
     for i in range(n):
         lazy = (prop == "C06" and i % 3 == 0) or (prop in ("C05",) and i % 8 == 0)
